@@ -24,6 +24,9 @@ CASE_TIMEOUT = {"quick": 20, "thorough": 120}
 
 
 def setup():
+    from ..monitors import reach
+
+    reach.install_paths(['qlasskit.bqm:SympyToBQM.visit', 'qlasskit.bqm:to_bqm', 'qlasskit.bqm:decode_samples'])
     here = os.path.join(os.path.dirname(os.path.dirname(os.path.abspath(__file__))), "standin")
     if here not in sys.path:
         sys.path.insert(0, here)
@@ -55,6 +58,15 @@ CORPUS = [
 
 
 def check(case):
+    from ..monitors import reach
+
+    r = _check_inner(case)
+    if isinstance(r, dict):
+        r.setdefault("counters", {}).update(reach.take())
+    return r
+
+
+def _check_inner(case):
     setup()
     import pyqubo
     from qlasskit import qlassf
